@@ -89,6 +89,7 @@ def check(name, checks):
             print(f"  {name} {c}: exit {r.returncode} {sig}", flush=True)
     finally:
         sh("git checkout -- .", cwd="/repo")
+        sh("git clean -fdq", cwd="/repo")
     meta = json.load(open(f"{dst}/meta.json"))
     meta.setdefault("checks_run", {}).update(results)
     meta["detected_by"] = sorted(c for c, v in meta["checks_run"].items() if v["exit"] == 1)
